@@ -25,7 +25,13 @@ they talk about is the `Mieru.StreamWire` receiver of C01.
   is a contiguous run of the sender's segments, and after the in-order check of `Session.inputData`
   (repo commit "fix: reject out-of-sequence data segments on the stream transport") the application
   reads a prefix of the data — under the hypothesis `DomSepT` that no payload plaintext parses as a
-  metadata block. Without that check the run `segs.drop 1` was delivered as it stood (regression
+  metadata block. WITHOUT it the statement is false, for the model (`tcp_payload_as_metadata_counterexample`)
+  and for the real endpoints (known finding `C04/tcp/payload-opened-as-metadata`). The honest set is the
+  key's WHOLE sealing history — both directions, every connection of the user — in
+  `tcp_tamper_key_history` / `tcp_tamper_session_prefix` / `tcp_aligned_reflection_splice` (named
+  hypothesis `NonceRangesDisjoint`; direction test, session dispatch, in-order check and the underlay's
+  guards modelled in Model/TamperKey.lean and tied to the source by `stream_session_layer_is_the_code`);
+  low-entropy segments are instances (`Seg.wfT`, `tcp_tamper_low_entropy`). Without that check the run `segs.drop 1` was delivered as it stood (regression
   `example` at the end; found by the campaign as `C04/tcp/initial-nonce-advanced-stream-prefix-removed`).
 * Packet transport. `udp_tamper_genuine_plaintexts`: the metadata and payload plaintexts of an accepted
   datagram were both sealed by the honest sender under the datagram's nonce. `udp_tamper_genuine`:
@@ -540,11 +546,18 @@ def cwire : Bytes :=
     sequence number 0, so the in-order check passes) and hands the next segment's genuine METADATA
     plaintext to the application: not a prefix of what was sent.
 
-    On the real endpoints the witness is replayed by the harness special `tcp-swap32` (client writes a
-    32-byte chunk that is an `openSessionRequest` / data metadata block, the stream is cut in front of that
-    payload's ciphertext and the clear-text nonce advanced onto its seal); see docs/notes/C04.md, section
-    "Round 3 — stream transport", for what the real code does with it and which of its checks — none
-    of them in this model — stands in the way. -/
+    NO check of the real code stands in the way: the harness special `tcp-swap32` replays the witness on
+    the real endpoints on every run (client writes a 32-byte chunk that is an `openSessionRequest` block
+    with ANY session id — or, server→client, a data / open-response block for the client's session id with
+    sequence number 0 —, the stream is withheld, cut in front of that payload's ciphertext and restarted
+    with the clear-text nonce advanced onto its seal) and the receiving application reads the 32 bytes of
+    the NEXT segment's genuine metadata plaintext: both directions, first and later segments — known
+    finding `C04/tcp/payload-opened-as-metadata` (corpus/C04/tcp-payload-opened-as-metadata-{c2s,s2c}.json).
+    The replay cache does not fire (the 16-byte nonce prefix is seen once), the first-segment validation
+    passes (the forged block IS an open request), the timestamp is the chunk author's. Only two things
+    block it, neither in this model: a server configured with `userHintIsMandatory` (the advanced nonce no
+    longer ends in the user hint; not the default, and clients never check) and low-entropy traffic (the
+    payload's wire form is the ENCODED body, which does not open as a raw 48-byte ciphertext). -/
 theorem tcp_payload_as_metadata_counterexample :
     ∃ (segs : List Seg) (w : Bytes) (read : List Bytes),
       segs = [cseg1, cseg2] ∧
